@@ -264,6 +264,16 @@ func c07Cases(c *ev.Check, g *gen.Gen, vocab []string, repo string, rng *rand.Ra
 	for i := 0; i < 600; i++ {
 		add("soup", g.OtherLine().Bytes(jt.Plain))
 	}
+	// names that are legal for a database / collection / field but mean something to a regular expression, a
+	// format string or a path - in attr.ns, as the verb's collection, as field names, next to an error text
+	for _, nm := range []string{"orders(eu", "c++", "tmp[2024", "jobs(*)", "a|b", "x{2,", "back\\slash", "per%cent%s", "star*", "q?", "caret^", "dollar$end", "..", "a..b", ".lead", "trail.", "sp ace", "tab\there"} {
+		for _, comp := range []string{"COMMAND", "WRITE", "NETWORK"} {
+			l := jt.ObjN("t", jt.ObjN("$date", jt.StrN("2025-01-01T00:00:00.000Z")), "s", jt.StrN("I"), "c", jt.StrN(comp), "id", jt.IntN(51803), "ctx", jt.StrN("conn1"), "msg", jt.StrN("Slow query"),
+				"attr", jt.ObjN("type", jt.StrN("command"), "ns", jt.StrN("shop."+nm), "command", jt.ObjN("find", jt.StrN(nm), "filter", jt.ObjN(nm, jt.StrN("v"), "name", jt.ObjN("$in", jt.ArrN(jt.StrN(nm)))), "sort", jt.ObjN(nm, jt.IntN(1)), "$db", jt.StrN("shop")),
+					"planSummary", jt.StrN("IXSCAN { "+nm+": 1 }"), "errMsg", jt.StrN("E11000 duplicate key error collection: shop."+nm+" index: "+nm+"_1 dup key: { "+nm+": \"v\" }"), "remote", jt.StrN("10.0.0.1:5"+nm)))
+			add("odd-names", l.Bytes(jt.Plain))
+		}
+	}
 	// (b) token classes in first position, legacy text lines, near-JSON
 	for _, s := range c06NonJSON {
 		add("non-json", []byte(s))
